@@ -190,12 +190,12 @@ PROPS["C20"] = {
             "(4) fault injection: child processes with RLIMIT_AS lowered so that every mmap fails and ordinary concurrent Acquire calls take the fallback. "
             "Oracle: regions pairwise disjoint, inside the reserve, at least as large as requested, written through stub.Write and read back, executed "
             "(MOV EAX,imm;RET). Non-trivial: a sequence with >=2 successful regions or reaching exhaustion, a concurrent round in which >=2 requesters "
-            "obtained regions, an Acquire sequence of >=2 sizes; distinct by the drawn sizes/goroutine count. consumers: rapid histories of interface mocks "
+            "obtained regions, an Acquire sequence of >=2 sizes; distinct by the drawn sizes/goroutine count. Regions are also used out of hand-out order: half of the acquire cases use their regions only after all were handed out, last one first, every case re-writes its regions from the last to the first and checks that each keeps what was written to it last; the mmap-failing child writes all its fallback regions through stub.Write highest address first and reads them back (a death in that phase is a violation). consumers: rapid histories of interface mocks "
             "(apply / stub / Cancel / Reset / another interface through a second builder) with the method tables of all variables read after every step: "
             "a stub address outside the text image that newly appears in a slot must never have appeared in any slot before in the life of the process.",
     "assumptions": ["the harness does not own the scheduler: the concurrent units are seeded stress searches (sound under any interleaving, incomplete)",
                     "RLIMIT_AS is honoured by the kernel for anonymous mmap (child rounds where the Go runtime itself dies of the limit are counted as excluded)"],
-    "floors": [("fallback-concurrent", "rounds-with>=2-successful-requesters", 10), ("acquire", "fallback", 5), ("acquire", "mmap", 50),
+    "floors": [("fallback-concurrent", "rounds-with>=2-successful-requesters", 10), ("acquire", "fallback", 5), ("acquire", "mmap", 50), ("acquire", "regions-rewritten-out-of-hand-out-order", 50),
                ("acquire-mmap-failing", "child-rounds-ok", 1)],
 }
 
@@ -363,9 +363,9 @@ PROPS["C08"] = {
             "addressed by pointer or by 'package.name'). Oracle after every step: the variable read directly and through a non-inlined accessor holds "
             "the mocked value, after Cancel/Reset bit-exactly the value it had before its first mock in that builder (identity for reference kinds); "
             "no panic. A variable is driven through fresh lookups or through one kept handle; lookup (handle obtained, nothing done) and assign (the program assigns the "
-            "variable before its first mock in the builder, possibly after the handle exists) are operations too. Non-trivial: a restore after >=2 Sets, a Cancel without Set, or a double restore; distinct by the operation-kind sequence.",
+            "variable before its first mock in the builder, possibly after the handle exists) are operations too; for string variables the assigned value is built at run time (25..64 bytes) and referenced by the variable alone (the model keeps clones), and a gc operation (collections, finalizers, refill of the small size classes) may run while variables are mocked: the saved pre-mock value is goom's to keep alive. Non-trivial: a restore after >=2 Sets, a Cancel without Set, or a double restore; distinct by the operation-kind sequence.",
     "assumptions": ["Apply on an unexported-variable mocker and Set(nil) for interface-typed variables are not generated/judged (DESIGN 5.3)"],
-    "floors": [("histories", "restore-after->=2-sets", 100), ("histories", "cancel-without-set", 50), ("histories", "by-name", 100)],
+    "floors": [("histories", "restore-after->=2-sets", 100), ("histories", "cancel-without-set", 50), ("histories", "by-name", 100), ("histories", "gc-while-a-variable-is-mocked", 100)],
 }
 
 PROPS["C06"] = {
